@@ -60,4 +60,21 @@ theorem clean_then_released (w : World) (hd : w.tr.deleting = true) (hclean : w.
   repeat' split
   all_goals simp_all
 
+/-! ### non-vacuity (tests on literals) -/
+
+/-- a TrafficRouting in deletion whose canary route is still in place: one reconcile keeps the finalizer
+    (the clean-up is not done), so `finalizer_guard` speaks about a real situation -/
+example :
+    let w : World := { tr := { deleting := true, hasFinalizer := true, progressing := 0, phase := .terminating, weight := some 20, grace := 3 },
+                       net := { stableExists := true, stableSel := some "v1", canarySvc := some "v2", stableIngress := true, canaryIng := some 20 },
+                       mem := Mem.empty }
+    (reconcile w).w.tr.hasFinalizer = true ∧ (reconcile w).gone = false := by decide
+
+/-- and once the network is clean the next reconcile releases it (`clean_then_released`) -/
+example :
+    let w : World := { tr := { deleting := true, hasFinalizer := true, progressing := 0, phase := .terminating, weight := some 20, grace := 0 },
+                       net := { stableExists := true, stableSel := none, canarySvc := none, stableIngress := true, canaryIng := none },
+                       mem := Mem.empty }
+    (reconcile w).w.tr.hasFinalizer = false ∨ (reconcile w).gone = true := by decide
+
 end RV.Props.TRSM
